@@ -40,12 +40,12 @@ EDIT_WEIGHTS = {"func": 0, "graph": 0.3, "c_rnv": 0.5, "io_iadd": 0, "attr_graph
 def plan(tier: str) -> dict:
     quick = tier == "quick"
     return {
-        "cases": 6000 if quick else 60000,
+        "cases": 16000 if quick else 450000,
         "shards": 16,
         "budget_s": 35 if quick else 540,
-        "floors": {"roundtrips_judged": 400 if quick else 15000, "snapshots_compared": 400 if quick else 15000,
-                   "edited_models_judged": 60 if quick else 2000},
-        "min_nontrivial": 100,
+        "floors": {"roundtrips_judged": 3000 if quick else 150000, "snapshots_compared": 3000 if quick else 150000,
+                   "edited_models_judged": 400 if quick else 20000},
+        "min_nontrivial": 1000,
     }
 
 
